@@ -37,6 +37,8 @@ pub enum Cmd {
     Absent(Option<u32>, Option<u32>, Option<u32>),
     /// command name and number of arguments
     Call(&'static str, u32),
+    /// `{ list; } & wait`
+    AsyncWait(List),
     /// `set -- w1 … wn`
     SetParams(u32),
     /// `typeset -fr name`
@@ -133,6 +135,7 @@ fn sx_cmd(c: &Cmd) -> String {
         Cmd::Tick(c, k) => format!("(tick {c} {k})"),
         Cmd::Group(l) => format!("(grp {})", sx_list(l)),
         Cmd::Subshell(l) => format!("(sub {})", sx_list(l)),
+        Cmd::AsyncWait(l) => format!("(async {})", sx_list(l)),
         Cmd::If(c, b, elifs, e) => {
             let mut s = format!("(if {} {} (", sx_list(c), sx_list(b));
             let v: Vec<String> = elifs
@@ -316,6 +319,7 @@ fn to_cmd(x: &Sx) -> Option<Cmd> {
         ("tick", 3) => Cmd::Tick(num(&v[1])?, num(&v[2])?),
         ("grp", 2) => Cmd::Group(to_list(&v[1])?),
         ("sub", 2) => Cmd::Subshell(to_list(&v[1])?),
+        ("async", 2) => Cmd::AsyncWait(to_list(&v[1])?),
         ("if", 4) | ("if", 5) => {
             let Sx::List(e) = &v[3] else { return None };
             let mut elifs = vec![];
@@ -618,6 +622,19 @@ impl Render {
                     self.out.push('\n');
                 }
                 self.out.push(')');
+            }
+            Cmd::AsyncWait(l) => {
+                // a brace group keeps `… & wait` one command wherever it stands (pipelines, and-or lists)
+                self.out.push_str("{ ");
+                if l.len() == 1 && self.rng.chance(1, 2) {
+                    // a lone and-or list is asynchronous as it is
+                    self.item(&l[0]);
+                } else {
+                    self.out.push_str("{ ");
+                    self.list_term(l);
+                    self.out.push('}');
+                }
+                self.out.push_str(*self.rng.pick(&[" & wait; }", "&wait;}", " &\nwait\n}"]));
             }
             Cmd::If(c, b, elifs, e) => {
                 self.out.push_str("if");
@@ -1007,6 +1024,7 @@ impl Gen {
         let d = depth + 1;
         match self.rng.below(12) {
             0 => Cmd::Group(self.list(d, 3)),
+            1 if self.rng.chance(1, 3) => Cmd::AsyncWait(self.list(d, 2)),
             1 => Cmd::Subshell(self.list(d, 3)),
             2 | 3 => {
                 let c = self.cond(d);
